@@ -207,7 +207,84 @@ META = {
         level_note=TB,
         explanation="Deductive: StringTuning.find_frets, get_Note, count_strings. Bounded: bounded/drivers/C20.py.",
     ),
+    "C07": dict(
+        claimed=True, level="other",
+        technique="bounded run-time contracts against an independent chord model (exhaustive over the statement's finite domain); deductive only for the trivial answers, rotations and inversion ordinals",
+        level_text="The recognisers (five mutually nested recursive closures dispatching on concatenated interval-name strings) are "
+                   "outside the VC generator; the statement's own quantifier is finite, so the deciding check is the driver: every "
+                   "shorthand x every root with <= 1 accidental (double accidentals sampled) x every rotation x both forms, all "
+                   "21^3 three-note inputs, sampled 4-7 note inputs, against an independent chord table and name parser. PROVED "
+                   "pieces: determine() on 0, 1 and 2 notes gives the documented trivial answers for all names; invert / "
+                   "first..third_inversion rotate chords of 1..7 arbitrary notes, leave the argument unchanged and return a fresh "
+                   "list; int_desc is total on 1..7.",
+        level_note=TB + " Deductive coverage of this property is small by nature; the driver's bounds are stated in its rule.",
+        explanation="Deductive: chords.determine (0/1/2 notes), invert, first/second/third_inversion, int_desc. Bounded: "
+                    "bounded/drivers/C07.py (27.6k cases quick). Former deviations repaired in /repo: e942522, 6b7baeb.",
+    ),
+    "C08": dict(
+        claimed=True, level="other",
+        technique="contract-based deductive verification of the diatonic chord functions over all 30 keys (complete split incl. memo-table hit/miss); progressions and substitutions by bounded driver",
+        level_text="Proved, per key (30 obligations sets each) against the spec's own key notes: triad and seventh of ANY note "
+                   "spelling inside the key are root, third, fifth(, seventh) of the key's notes; triads(key)/sevenths(key) on a "
+                   "cold and on a warm memo table return the seven stacks of thirds as FRESH lists and reject every other string; "
+                   "the 14 function names and the 22 numeral aliases (incl. vii7) denote exactly those chords; numeral arithmetic "
+                   "skip and interval_diff (with termination). NOT proved: progressions.to_chords / determine / parse and format / "
+                   "the substitution rules (string scanning, recursion) - bounded driver against an independent numeral model.",
+        level_note=TB,
+        explanation="Deductive: chords.triad, seventh, triads, sevenths, tonic..subtonic7, I..VII7, ii..vii7, progressions.skip, "
+                    "interval_diff. Bounded: bounded/drivers/C08.py (124k cases quick). Repaired in /repo: 0c96aa4, 48fa28b.",
+    ),
+    "C12": dict(
+        claimed=True, level="other",
+        technique="bounded-exhaustive histories against a set model (driver); deductive per-operation contract of add_note on small containers",
+        level_text="The property is about histories of a heap list of objects; it is decided by the driver (all operation "
+                   "sequences over the add/remove alphabet to a depth bound against a set model, constructors over every "
+                   "shorthand). PROVED piece: NoteContainer.add_note on containers holding 0, 1 or 2 notes of ARBITRARY pitch: "
+                   "a Note argument keeps the container pitch-ordered and duplicate-free, adds exactly the new pitch and keeps "
+                   "every old one; a bare name goes to octave 4 in an empty container and otherwise at or above the top note, "
+                   "less than an octave above it (names whose letter+accidentals stay within one octave; list.sort modelled as "
+                   "a stable insertion sort driven by Note.__lt__).",
+        level_note=TB + " The deductive piece is bounded in container size (<= 2 notes before the call), unbounded in pitches.",
+        explanation="Deductive: NoteContainer.add_note (Note and bare-name forms) on containers of <= 2 notes. Bounded: "
+                    "bounded/drivers/C12.py.",
+    ),
+    "C13": dict(
+        claimed=True, level="other",
+        technique="exact-rational model of placement histories (driver); deductive contracts for the scalar per-call clauses under float-as-real",
+        level_text="PROVED (floats as reals): set_meter accepts exactly power-of-two beat units or (0,0), stores the meter, sets "
+                   "length*unit == count, and raises the meter-format error otherwise; is_full is exactly 'non-empty and "
+                   "current_beat >= length - 0.001 and length != 0'; current_beat + space_left == length. The history clauses "
+                   "(start beats are prefix sums, acceptance decided on exact rationals, refused placement changes nothing) "
+                   "depend on IEEE rounding and on a heap list of entries: decided by the driver against an exact Fraction model.",
+        level_note=TB + " float-as-real in the deductive part; the float-vs-rational question is bounded only.",
+        explanation="Deductive: Bar.set_meter, is_full, space_left. Bounded: bounded/drivers/C13.py.",
+    ),
+    "C14": dict(
+        claimed=True, level="other",
+        technique="bounded-exhaustive and seeded histories against a list model with exact lengths (driver); deductive range predicate",
+        level_text="Decided by the driver (all value sequences to a depth bound x meters, seeded long histories, from_chords over "
+                   "nested lists, compositions) against an exact-Fraction track model. PROVED piece: Instrument.note_in_range is "
+                   "exactly 'range low <= pitch <= range high' for arbitrary range notes and note (through the proved Note "
+                   "comparison contracts).",
+        level_note=TB,
+        explanation="Deductive: Instrument.note_in_range. Bounded: bounded/drivers/C14.py (166k cases quick). Repaired in /repo: "
+                    "rest with instrument, Guitar.can_play_notes, Composition.__eq__, container == rest.",
+    ),
+    "C15": dict(
+        claimed=True, level="other",
+        technique="frame and freshness obligations of the contracts (deductive) plus cold-interpreter / sibling-instance histories (driver)",
+        level_text="PROVED as frame/freshness obligations: keys.get_notes, chords.triads, chords.sevenths return lists allocated "
+                   "by the call (never the memo row) on both the cold and the warm table, for all 30 keys; intervals.invert "
+                   "restores its argument for lists of any length and returns a fresh list; chords.invert and the three "
+                   "inversion helpers leave their argument unchanged. Every other function under contract in C01-C20 carries a "
+                   "'writes outside modifies' obligation in its own property. The history clauses (same value whatever was "
+                   "called before, sibling instances, copies, fft position memory) are decided by the driver with cold "
+                   "interpreter workers.",
+        level_note=TB,
+        explanation="Deductive: is_fresh / frame obligations on get_notes, triads, sevenths, invert, chords.invert & inversions. "
+                    "Bounded: bounded/drivers/C15.py (1.6M evaluations quick). Ten deviations repaired in /repo.",
+    ),
 }
 
 _NOT_YET = "not yet brought under contract in this build step (see DESIGN.md §9 for the plan); nothing is claimed"
-NOT_APPLICABLE = dict(("C%02d" % i, _NOT_YET) for i in [7, 8, 12, 13, 14, 15])
+NOT_APPLICABLE = dict(("C%02d" % i, _NOT_YET) for i in [])
